@@ -126,6 +126,9 @@ func checkCloseOnce(c *Ctx, rule string, f *ssa.Function, ch ssa.Value, chName s
 		good := len(deferred) == 1 && nClose == 0 && !inLoop(deferred[0].Block()) && deferred[0].Block().Dominates(f.Blocks[0]) == (deferred[0].Block() == f.Blocks[0])
 		// the defer must be registered on every path: its block dominates every return
 		for _, r := range returnsOf(f) {
+			if f.Recover != nil && r.Block() == f.Recover {
+				continue // the synthetic recover exit: deferred calls have run by then
+			}
 			if !deferred[0].Block().Dominates(r.Block()) {
 				good = false
 			}
